@@ -285,6 +285,35 @@ def equal(a, b):
     return is_zero(sub(a, b))
 
 
+def const_value(n):
+    """the rational value of n if it evaluates to the same number at every test point (a constant in disguise, e.g.
+    (R0 + p*(R - R0) - R0)/(R - R0)); None otherwise.  Same error bound as the identity test."""
+    n = lift(n)
+    if n.op == "c":
+        return n.a
+    vals = set()
+    for p in points():
+        try:
+            vals.add(p.value(n))
+        except ZeroDivisionError:
+            return None
+        if len(vals) > 1:
+            return None
+    return vals.pop()
+
+
+def order_at_points(a, b):
+    """-1 / 0 / +1 if a < b / a == b / a > b at every test point (atoms positive), None if the order is not uniform"""
+    d = sub(lift(a), lift(b))
+    sg = set()
+    for p in points():
+        v = p.value(d)
+        sg.add((v > 0) - (v < 0))
+        if len(sg) > 1:
+            return None
+    return sg.pop()
+
+
 def is_nonneg_form(n):
     """syntactic: built from atoms and non-negative constants with + * / only (hence >= 0 for positive atoms)"""
     seen = set()
